@@ -228,7 +228,7 @@ entry no pattern matches, yet it was not listed — so edits of `a` went unnotic
 vlib/props/c12.py (kind `missed-rerun`, filtered variants, trees with dangling links). -/
 theorem C12_F32_before_repair : ¬ C12_filter_exact_before_repair := by
   intro h
-  have := (h ⟨fun p n => p == n, [[0x78]]⟩ [([0x6c], .link none), ([0x61], .file ⟨1, 2, 0o100644, 0, 1, 0⟩)] [0x61]).2
+  have := (h ⟨fun p n => p == n, [[0x78]]⟩ [([0x6c], .link none), ([0x61], .file (.plain 1 2 0o100644 0 1 0))] [0x61]).2
   revert this
   decide
 
@@ -239,8 +239,8 @@ section Examples
 /-- a toy matcher for the examples: a pattern matches exactly the equal name -/
 def exCfg : Cfg := ⟨fun p n => p == n, [[0x78]]⟩          -- exclude "x"
 def exNoFilter : Cfg := ⟨fun p n => p == n, []⟩
-def fileInfo (ino size mt : UInt64) : Info := ⟨1, ino, 0o100644, size, mt, 0⟩
-def dirInfo (ino mt : UInt64) : Info := ⟨1, ino, 0o040755, 4096, mt, 0⟩
+def fileInfo (ino size mt : UInt64) : Info := .plain 1 ino 0o100644 size mt 0
+def dirInfo (ino mt : UInt64) : Info := .plain 1 ino 0o040755 4096 mt 0
 /-- d/{b, a/{x, y}, x}  in directory order b, a, x -/
 def exTree : Tree :=
   .dir (dirInfo 2 10) [([0x62], .file (fileInfo 3 5 11)),
